@@ -1,6 +1,8 @@
 package c16
 
 import (
+	"sync"
+	"sync/atomic"
 	"testing"
 
 	"verif/harness/kit"
@@ -33,4 +35,47 @@ func TestSweep(t *testing.T) {
 	}
 	rec.Note("boundary_values_per_depth", len(vs)+len(us))
 	rec.Exhaustive("all 64 depths x all int64/uint64 within +-3 of 0, +-2^k and the type bounds; Scale over all pairs h>=l in 1..64 x 11 integer types", true)
+}
+
+// TestConcurrent evaluates the same oracle from many goroutines at once, each
+// working at a different depth: the functions are pure, so the results must not
+// depend on what other goroutines compute at the same time.
+func TestConcurrent(t *testing.T) {
+	env := kit.GetEnv(Property)
+	rec := kit.NewRecorder(env, "sweep-concurrent")
+	defer func() { rec.Flush(!t.Failed()) }()
+	vs, us := BoundaryInts()
+	rounds := env.Pick(30, 300)
+	var failed atomic.Pointer[Case]
+	var failMsg atomic.Pointer[string]
+	var evals atomic.Int64
+	var wg sync.WaitGroup
+	start := make(chan struct{})
+	for g := 0; g < 16; g++ {
+		wg.Add(1)
+		go func(g int) {
+			defer wg.Done()
+			<-start
+			for r := 0; r < rounds && failed.Load() == nil; r++ {
+				b := 1 + (g*4+r*7)%64
+				i := (g*131 + r*17) % (len(vs) - 40)
+				c := &Case{B: b, Vs: vs[i : i+40], Us: us[i%(len(us)-40) : i%(len(us)-40)+40], T: IntTypes[(g+r)%len(IntTypes)], L: 1 + (r % b), H: b}
+				res := Oracle.Safe(c)
+				evals.Add(1)
+				if res.Fail != "" {
+					failed.CompareAndSwap(nil, c)
+					m := res.Fail + " (while 15 other goroutines evaluate other depths concurrently)"
+					failMsg.CompareAndSwap(nil, &m)
+					return
+				}
+			}
+		}(g)
+	}
+	close(start)
+	wg.Wait()
+	rec.Bulk("concurrentDepths", evals.Load(), evals.Load())
+	if c := failed.Load(); c != nil {
+		kit.Fail(t, env, "sweep-concurrent", c, *failMsg.Load())
+	}
+	rec.Sample(map[string]any{"goroutines": 16, "rounds_each": rounds, "what": "40 boundary values clipped at a depth that differs per goroutine and round, plus a Scale query"})
 }
